@@ -28,6 +28,7 @@ func (s *SSTableManager) reflectCompactionResult(m *proto.CompactionMetadata) er
 	return func() error {
 		defer s.databaseLock.Unlock()
 		defer s.managerLock.Unlock()
+		verifReflect("begin", s, m)
 
 		for _, p := range m.SstablePaths {
 			i := indexOfReader(s.allSSTableReaders, p)
@@ -79,6 +80,7 @@ func (s *SSTableManager) reflectCompactionResult(m *proto.CompactionMetadata) er
 		}
 
 		s.currentReader = sstables.NewSuperSSTableReader(s.allSSTableReaders, s.cmp)
+		verifReflect("done", s, m)
 
 		return nil
 	}()
@@ -102,6 +104,7 @@ func (s *SSTableManager) addReader(newReader sstables.SSTableReaderI) {
 		allSSTableReaders := append(s.allSSTableReaders, newReader)
 		s.currentReader = sstables.NewSuperSSTableReader(allSSTableReaders, s.cmp)
 		s.allSSTableReaders = allSSTableReaders
+		verifInstall(s, newReader)
 	}()
 }
 
@@ -149,6 +152,7 @@ func (s *SSTableManager) candidateTablesForCompaction(compactionMaxSizeBytes uin
 		}
 	}
 
+	verifCandidates(s, compactionMaxSizeBytes, compactionRatio, selectedPaths)
 	return compactionAction{
 		pathsToCompact: selectedPaths,
 		totalRecords:   numRecords,
